@@ -249,4 +249,35 @@ def parseFile (dc : Decomp) (cols : List Col) (maxRecs : Nat) (file : Bytes) : V
   if f.numRows ≠ ((rgs.map (·.numRows)).sum : Nat) then .error "footer: num_rows differs from the rows stored in the row groups" else
   pure { numRows := f.numRows.toNat, rowGroups := rgs, fmd := f }
 
+/-! ## statistics oracle (C12) -/
+
+def isNaNVal (ty : PType) (v : Bytes) : Bool :=
+  match ty with
+  | .f32 => fIsNaN 8 23 (fromLE v)
+  | .f64 => fIsNaN 11 52 (fromLE v)
+  | _ => false
+
+/-- the statement of C12 for one page, as an executable check: `none` = sound -/
+def statsUnsound (c : Col) (pg : SpecPage) : Option String :=
+  let st := pg.stats.getD []
+  let nulls := (pg.entries.filter fun e => e.val.isNone).length
+  let vals := (pg.entries.filterMap (·.val)).filter fun v => !isNaNVal c.ty v
+  let nonNull := pg.entries.filterMap (·.val)
+  let mn := getBin st 6
+  let mx := getBin st 5
+  match getI64 st 3 with
+  | some n => if n ≠ (nulls : Int) then some "null_count differs from the number of entries without a value" else none
+  | none => none
+  <|> (if nonNull.isEmpty ∧ (mn.isSome ∨ mx.isSome) then some "min/max present on a page without non-null values" else none)
+  <|> (match mn with
+       | some m => if vals.any (fun v => vLt c.ty v m) then some "a value is below min" else none
+       | none => none)
+  <|> (match mx with
+       | some m => if vals.any (fun v => vLt c.ty m v) then some "a value is above max" else none
+       | none => none)
+
+def statsCheckFile (cols : List Col) (f : SpecFile) : Option String :=
+  let all : List (Col × SpecPage) := f.rowGroups.flatMap fun rg => (cols.zip rg.chunks).flatMap fun (c, sc) => sc.pages.map fun p => (c, p)
+  all.findSome? fun (c, p) => (statsUnsound c p).map fun msg => c.name ++ ": " ++ msg
+
 end PQ
